@@ -35,7 +35,8 @@ def targetOf (i : Instr) (a : Nat) : Option Nat :=
 Rust type, a PC-relative offset is one the instruction can encode (range and alignment), and the
 PC-relative target lies inside the 32-bit address space. Every value `Instruction::decode` returns
 satisfies the field and offset conditions (checked on every decoded pattern by the harness through
-`front showbuild`); the target condition is the property's own side condition. -/
+`front showbuild`); the target condition — statement address plus 4 (word-aligned first for ADR / literal LDR) plus the offset,
+in unbounded arithmetic, is below 2^32 and not negative — is the property's own side condition. -/
 def Printable (i : Instr) (a : Nat) : Prop :=
   match i with
   | .add _ _ _ r | .sub _ _ _ r | .cmp _ r | .mov _ _ r => r.wf
@@ -44,12 +45,12 @@ def Printable (i : Instr) (a : Nat) : Prop :=
   | .ldr _ ad o =>
     match o with
     | .imm off =>
-      if ad.val = 15 then 0 ≤ off ∧ off ≤ 1020 ∧ off % 4 = 0 ∧ (alPc a : Int) + off < 4294967296
+      if ad.val = 15 then 0 ≤ off ∧ off ≤ 1020 ∧ off % 4 = 0 ∧ (Front.alPc a : Int) + off < 4294967296
       else inI32 off
     | .reg _ => True
-  | .adr _ off => 0 ≤ off ∧ off ≤ 1020 ∧ off % 4 = 0 ∧ (alPc a : Int) + off < 4294967296
-  | .b c off => bLo c ≤ off ∧ off ≤ bHi c ∧ off % 2 = 0 ∧ 0 ≤ (pcOf a : Int) + off ∧ (pcOf a : Int) + off < 4294967296
-  | .bl off => -16777216 ≤ off ∧ off ≤ 16777215 ∧ off % 2 = 0 ∧ 0 ≤ (pcOf a : Int) + off ∧ (pcOf a : Int) + off < 4294967296
+  | .adr _ off => 0 ≤ off ∧ off ≤ 1020 ∧ off % 4 = 0 ∧ (Front.alPc a : Int) + off < 4294967296
+  | .b c off => bLo c ≤ off ∧ off ≤ bHi c ∧ off % 2 = 0 ∧ 0 ≤ (Front.pcOf a : Int) + off ∧ (Front.pcOf a : Int) + off < 4294967296
+  | .bl off => -16777216 ≤ off ∧ off ≤ 16777215 ∧ off % 2 = 0 ∧ 0 ≤ (Front.pcOf a : Int) + off ∧ (Front.pcOf a : Int) + off < 4294967296
   | .bkpt v | .svc v | .udf v => 0 ≤ v ∧ v ≤ 255
   | .udfw v => 0 ≤ v ∧ v ≤ 65535
   | _ => True
